@@ -1,38 +1,35 @@
 (** C16: a failing resolver fails the whole query; clients only see sanitised errors.
     Statements only; proofs are in Gql/ProofsSched.v, Gql/ProofsErr.v. *)
-From Coq Require Import List String Bool Arith Permutation.
+From Coq Require Import List String Bool Arith Permutation ZArith.
 From Thunder Require Import Lib.Json Gql.Types Gql.Value Gql.Query Gql.Ref Gql.Exec Gql.Check Gql.Envelope
-  Gql.ProofsSched Gql.ProofsErr Gql.ProofsRef Gql.ProofsMain Gql.ProofsEnt Gql.ProofsTop.
+  Gql.ProofsSched Gql.ProofsErr Gql.ProofsRef Gql.ProofsMain Gql.ProofsEnt Gql.ProofsTop Gql.ProofsFail Gql.ProofsFailMain.
 Import ListNotations.
 Open Scope string_scope.
 Open Scope list_scope.
 
-(** (i)+(ii), relative to the forest of work units: for every schedule, if some unit of the forest
-    under the initial units raises a failure, the completed run returns an error, one of those raised
-    (first in schedule order); if none does, it returns data.
+(** (i) For every schema (execution modes included), query, data and schedule: if some needed resolver
+    fails - the reference evaluation reports failures, none of them a defect of the model's inputs
+    ([good]: the query fits the schema, the data has a result for every selected field, the fuel
+    suffices) - then Execute returns an error and no data: either at once (a malformed directive at the
+    top level) or, once no unit is pending, the failure the error recorder holds.  That error is one of
+    the needed failures ([perr_sim]): the same error value; no response path if it is client-safe,
+    otherwise the response path of the failing field, aliases and list positions, where the list indices
+    are those of the first destination of the work unit when a batch resolver fails as a whole. *)
+Theorem failing_resolver_fails_query : forall S fuel rf q root sched,
+  needed_failures S fuel q root <> [] -> good (needed_failures S fuel q root) ->
+  (exists e f, init fixed S q root = inr e /\ In f (needed_failures S fuel q root) /\ perr_sim e f = true) \/
+  (exists st0, init fixed S q root = inl st0 /\
+     (complete (run_sched fixed S fuel sched st0) = true ->
+      exists e f, finish rf (run_sched fixed S fuel sched st0) = Some (RErr e) /\
+                  In f (needed_failures S fuel q root) /\ perr_sim e f = true)).
+Proof. exact ProofsFailMain.failing_resolver_fails_query. Qed.
+Print Assumptions failing_resolver_fails_query.
 
-    FULL STATEMENT of (i), of which this is the part proved:
-      needed_failures S fuel q root <> [] ->
-        exists f, In f (needed_failures S fuel q root) /\ run fixed S fuel sched q root = Some (RErr f')
-        with f' = f up to the list indices of a failing batch unit's first destination
-    Missing for (i): the failures the forest raises are (up to that index rule) needed failures of
-    eval_ref, and the forest is finite also when resolvers fail; the lemma [units_compute_reference]
-    (C01) covers the failure-free case only, which gives (ii) below in full.  The executable model is
-    tested against the full statement on every run (Gql/Check.v: obs_matches_run / obs_matches_ref). *)
-Theorem failing_unit_fails_query_partial : forall Q S fuel rf st0 rs,
-  Forall2 (P Q S fuel) (st_pending st0) rs -> st_err st0 = None ->
-  NoDup (map fst (st_heap st0 ++ heaps rs)) ->
-  forall sched, complete (run_sched Q S fuel sched st0) = true ->
-    match errs rs with
-    | [] => exists j, finish rf (run_sched Q S fuel sched st0) = Some (ROk j)
-    | _ => exists e, In e (errs rs) /\ finish rf (run_sched Q S fuel sched st0) = Some (RErr e)
-    end.
-Proof.
-  intros Q S fuel rf st0 rs HF He Hnd sched Hc.
-  pose proof (ProofsSched.result_independent_of_schedule Q S fuel rf st0 rs HF He Hnd sched Hc) as H.
-  destruct (errs rs); [eexists; exact H | exact H].
-Qed.
-Print Assumptions failing_unit_fails_query_partial.
+(** Behind it: a work unit, whatever its mode, raises only needed failures of its sources, and raises
+    one whenever there is one. *)
+Theorem units_fail_like_reference : forall S fuel fr, GR S fuel fr /\ GU S fuel fr.
+Proof. exact ProofsFail.units_fail_like_reference. Qed.
+Print Assumptions units_fail_like_reference.
 
 (** (ii), in full: if no needed resolver fails (the reference evaluation raises nothing), every
     completed run, under every schedule and every execution-mode assignment, returns the reference data. *)
@@ -82,6 +79,24 @@ Theorem failing_subscription_reported_once_then_closed : forall id e,
   subscribe_initial id (RErr e) = [WError id (sanitize e); WClosed id].
 Proof. exact ProofsErr.subscribe_initial_error. Qed.
 Print Assumptions failing_subscription_reported_once_then_closed.
+
+Definition ex16_schema : schema :=
+  mk_schema
+    [mk_object "Query" [mk_field "as" (TList (TObject "A")) false false true false None] None;
+     mk_object "A" [mk_field "x" (TScalar "int64") true false true true (Some [2; 2; 2; 2]);
+                    mk_field "y" (TScalar "int64") false true true false None] None]
+    [] "Query".
+Definition ex16_a (x : outcome value) := VObj "A" [("x", x); ("y", OFail (mk_err ESafe "visible"))].
+Definition ex16_root := VObj "Query" [("as", OOk (VList [ex16_a (OOk (VLeaf (LNum 1%Z))); ex16_a (OFail (mk_err EPlain "hidden"))]))].
+Definition ex16_q : selset :=
+  SelSet 1 [(mk_selh "as" "as" "as" [], Some (SelSet 2 [(mk_selh "x" "x" "x" [], None); (mk_selh "y" "y" "y" [], None)] []))] [].
+
+Example failing_hypotheses_satisfiable :
+  List.length (needed_failures ex16_schema 10 ex16_q ex16_root) = 3 /\
+  (forall f, In f (needed_failures ex16_schema 10 ex16_q ex16_root) -> model_err (pe_err f) = false).
+Proof.
+  split; [vm_compute; reflexivity|]. vm_compute. intros f [<-|[<-|[<-|[]]]]; reflexivity.
+Qed.
 
 Example hypotheses_satisfiable :
   sanitize (nest [PKey "a"; PIdx 1] (mk_err EPlain "secret")) = "Internal server error" /\
